@@ -201,6 +201,9 @@ def adaptive_personalized_federated_learning(
     )
 
     client_diagnostics = {}
+    # Updated per-client states go into a copy so that the input server state is
+    # left untouched.
+    client_states = dict(server_state.client_states)
     # Running weighted mean of client updates. We do this iteratively to avoid
     # loading all the client outputs into memory since they can be prohibitively
     # large depending on the model parameters size.
@@ -208,7 +211,7 @@ def adaptive_personalized_federated_learning(
     num_examples_sum = 0.
     for client_id, client_output in train_for_each_client(server_state.params, batch_clients):
       delta_params = client_output['delta_params']
-      server_state.client_states[client_id] = client_output['state']
+      client_states[client_id] = client_output['state']
       num_examples = client_num_examples[client_id]
       delta_params_sum = tree_util.tree_add(delta_params_sum, tree_util.tree_weight(delta_params, num_examples))
       num_examples_sum += num_examples
@@ -218,7 +221,9 @@ def adaptive_personalized_federated_learning(
           'delta_l2_norm': tree_util.tree_l2_norm(delta_params)
       }
     mean_delta_params = tree_util.tree_inverse_weight(delta_params_sum,num_examples_sum)
-    server_state = server_update(server_state, mean_delta_params)
+    server_state = server_update(
+      ServerState(server_state.params, server_state.opt_state, client_states),
+      mean_delta_params)
 
     return server_state, client_diagnostics
 
